@@ -1,11 +1,11 @@
 (* Model of the stream-id machinery of scylla/src/network/connection.rs  (property C02).
    Executable definitions only; proofs are in Proofs/Streams_proofs.v.
 
-   Part 1  StreamIdSet            (connection.rs 2421-2450): 512 words of 64 bits, allocate, free
-   Part 2  ResponseHandlerMap     (2336-2419) with OrphanageTracker (2296-2334, its key set)
+   Part 1  StreamIdSet            (connection.rs 2442-2471): 512 words of 64 bits, allocate, free
+   Part 2  ResponseHandlerMap     (2357-2440) with OrphanageTracker (2317-2355, its key set)
    Part 3  one connection as an interleaving semantics: RouterHandle::send_request (136-175),
-           OrphanhoodNotifier (194-223), writer (1693-1747) / alloc_stream_id (1674-1691),
-           reader (1608-1672), orphaner (1753-1786), end of router (1588-1605), and the peer.
+           OrphanhoodNotifier (194-223), writer (1714-1768) / alloc_stream_id (1695-1712),
+           reader (1629-1693), orphaner (1774-1807), end of router (1609-1627), and the peer.
 
    Rust types: stream ids are i16 (only 0..32767 occur here), RequestId = u64, bitmap words u64.
    All are N.  A ResponseHandler is (request id, token): the token stands for the oneshot
